@@ -90,6 +90,8 @@ def subst(e, var, by):
         return CV(subst(e.re, var, by), subst(e.im, var, by))
     if isinstance(e, XV):
         return XV(subst(e.v, var, by), z3.substitute(e.nan, (var, by)) if not isinstance(e.nan, bool) else e.nan)
+    if hasattr(e, "subst_row"):
+        return e.subst_row(var, by)
     return e
 
 
@@ -309,7 +311,47 @@ def _is_boolish(e):
     return False
 
 
+class SetVal:
+    """a set-valued cell (e.g. the member list of a group row): membership of the generic element x as a formula"""
+    is_scalar_like = True
+
+    def __init__(self, x, body):
+        self.x, self.body = x, body
+
+    def subst_row(self, var, by):
+        return SetVal(self.x, z3.substitute(self.body, (var, by)))
+
+    def mem(self, xz):
+        return z3.substitute(self.body, (self.x, xz))
+
+    def _bin(self, other, f):
+        if not isinstance(other, SetVal):
+            raise EngineError("set operation with a non-set")
+        if other.x.sort() != self.x.sort():
+            raise EngineError("set operation on sets of different element sorts")
+        return SetVal(self.x, f(self.body, other.mem(self.x)))
+
+    def difference(self, o):
+        return self._bin(o, lambda a, b: z3.And(a, z3.Not(b)))
+
+    def intersection(self, o):
+        return self._bin(o, lambda a, b: z3.And(a, b))
+
+    def union(self, o):
+        return self._bin(o, lambda a, b: z3.Or(a, b))
+
+    def sym_len(self, it):
+        c = z3.Int(f"card[{_key(self.body)}]")
+        it.ctx.axiom(z3.And(c >= 0, z3.Implies(self.body, c >= 1)))
+        return SV(c)
+
+    def sym_isinstance(self, it, cls):
+        return getattr(cls, "__name__", str(cls)) in ("Index", "list", "object", "Iterable")
+
+
 def is_scalar(x):
+    if getattr(x, "is_scalar_like", False):
+        return True
     return isinstance(x, (SV, CV, XV, int, float, bool, complex, str, type(None))) or \
         (hasattr(x, "dtype") and getattr(x, "shape", None) == ())
 
